@@ -63,24 +63,24 @@ Proof.
   - apply IH in H. destruct H. split; auto. right; auto.
 Qed.
 
-Definition child_step (f : nat) (use_memo : bool) (src : graph) (ai : atom_info) (is_ev : bool) (anc' : list nat)
+Definition child_step (f : nat) (tc : bool) (use_memo : bool) (src : graph) (ai : atom_info) (is_ev : bool) (anc' : list nat)
            (acc : option (tgt * memo * list key * list nat * list nat)) (child : Z)
   : option (tgt * memo * list key * list nat * list nat) :=
   match acc with
   | None => None
   | Some (t0, m0, ks, cb, cn) =>
-    match bc f use_memo src ai is_ev t0 m0 child anc' with
+    match bc f tc use_memo src ai is_ev t0 m0 child anc' with
     | None => None
     | Some r => Some (r_tgt r, r_memo r, ks ++ [r_key r], union cb (r_cb r), union cn (r_cn r))
     end
   end.
 
-Lemma bc_unfold : forall f um src ai is_ev t m nodeid anc,
-    bc (S f) um src ai is_ev t m nodeid anc =
+Lemma bc_unfold : forall f tc um src ai is_ev t m nodeid anc,
+    bc (S f) tc um src ai is_ev t m nodeid anc =
     let neg := (nodeid <? 0)%Z in
     let n := Z.abs_nat nodeid in
     let out (k : key) := if neg then knegate k else k in
-    if (n =? 0) && negb is_ev then Some (mk_result t m (Some 0%Z) [] [])
+    if (n =? 0) && (tc || negb is_ev) then Some (mk_result t m (Some 0%Z) [] [])
     else if mem n anc then Some (mk_result t m None [n] [])
     else
       let reuse := if um then
@@ -99,7 +99,7 @@ Lemma bc_unfold : forall f um src ai is_ev t m nodeid anc,
           Some (mk_result t1 (memo_add m n (nk, [], [])) (out nk) [] [])
         | Some nd =>
           let isand := match nd with NAnd _ => true | _ => false end in
-          match fold_left (child_step f um src ai is_ev (anc ++ [n])) (children nd) (Some (t, m, [], [], [])) with
+          match fold_left (child_step f tc um src ai is_ev (anc ++ [n])) (children nd) (Some (t, m, [], [], [])) with
           | None => None
           | Some (t1, m1, ks, ccb, ccn) =>
             match t_add_compound isand t1 ks with
@@ -113,8 +113,8 @@ Lemma bc_unfold : forall f um src ai is_ev t m nodeid anc,
       end.
 Proof. reflexivity. Qed.
 
-Lemma child_step_none : forall f um src ai is_ev anc' cs,
-    fold_left (child_step f um src ai is_ev anc') cs None = None.
+Lemma child_step_none : forall f tc um src ai is_ev anc' cs,
+    fold_left (child_step f tc um src ai is_ev anc') cs None = None.
 Proof. induction cs; simpl; auto. Qed.
 
 (* ------------------------------------------------------------------ Forall2 helpers *)
@@ -156,6 +156,7 @@ Hypothesis M : is_model src a s.
 Hypothesis ST : forall k nd c, node_at src k = Some nd -> In c (children nd) ->
                                ((0 < c)%Z -> lvl (key_of c) <= lvl k) /\ ((c < 0)%Z -> lvl (key_of c) < lvl k).
 Variable ai : atom_info.
+Variable tc : bool.
 Variable use_memo : bool.
 Variable is_ev : bool.
 
@@ -256,17 +257,17 @@ Definition child_ok (t : tgt) (anc' : list nat) (cb : list nat) (c : Z) (k : key
 
 Lemma children_ok : forall f anc',
     (forall t m c r, topo (t_nodes t) -> memo_ok t m -> anc_ok c anc' ->
-                     bc f use_memo src ai is_ev t m c anc' = Some r -> post t c anc' r) ->
+                     bc f tc use_memo src ai is_ev t m c anc' = Some r -> post t c anc' r) ->
     forall cs t0 m0 ks0 cb0 cn0 t1 m1 ks ccb ccn,
       topo (t_nodes t0) -> memo_ok t0 m0 -> (forall c, In c cs -> anc_ok c anc') ->
-      fold_left (child_step f use_memo src ai is_ev anc') cs (Some (t0, m0, ks0, cb0, cn0)) = Some (t1, m1, ks, ccb, ccn) ->
+      fold_left (child_step f tc use_memo src ai is_ev anc') cs (Some (t0, m0, ks0, cb0, cn0)) = Some (t1, m1, ks, ccb, ccn) ->
       ext t0 t1 /\ topo (t_nodes t1) /\ memo_ok t1 m1 /\ (forall x, In x cb0 -> In x ccb) /\
       exists ks', ks = ks0 ++ ks' /\ Forall2 (child_ok t1 anc' ccb) cs ks'.
 Proof.
   intros f anc' IHf. induction cs as [|c cs IH]; intros t0 m0 ks0 cb0 cn0 t1 m1 ks ccb ccn T MO AO H; simpl in H.
   - inversion H; subst. split. apply ext_refl. split; auto. split; auto. split; auto.
     exists []. split. now rewrite app_nil_r. constructor.
-  - destruct (bc f use_memo src ai is_ev t0 m0 c anc') as [r|] eqn:B.
+  - destruct (bc f tc use_memo src ai is_ev t0 m0 c anc') as [r|] eqn:B.
     2: { rewrite child_step_none in H. discriminate. }
     assert (P : post t0 c anc' r). { apply (IHf t0 m0 c r); auto. apply AO. left; auto. }
     destruct P as [E [T' [MO' [K L]]]].
@@ -334,13 +335,13 @@ Qed.
 (* ------------------------------------------------------------------ the recursion *)
 Theorem bc_ok : forall fuel t m c anc r,
     topo (t_nodes t) -> memo_ok t m -> anc_ok c anc ->
-    bc fuel use_memo src ai is_ev t m c anc = Some r -> post t c anc r.
+    bc fuel tc use_memo src ai is_ev t m c anc = Some r -> post t c anc r.
 Proof.
   induction fuel as [|f IHf]; intros t m c anc r T MO AO H. discriminate.
   rewrite bc_unfold in H. cbv zeta in H.
   set (n := Z.abs_nat c) in *.
   assert (KN : key_of c = n) by reflexivity.
-  destruct ((n =? 0) && negb is_ev) eqn:C0.
+  destruct ((n =? 0) && (tc || negb is_ev)) eqn:C0.
   { (* TRUE child *)
     apply andb_true_iff in C0. destruct C0 as [C0 _]. apply Nat.eqb_eq in C0.
     assert (c = 0%Z) by (unfold n in C0; lia). subst c.
@@ -394,7 +395,7 @@ Proof.
     split. rewrite VA, SN; auto. split. apply LB. intros B _. apply LB.
   - (* conjunction *)
     simpl in H.
-    destruct (fold_left (child_step f use_memo src ai is_ev (anc ++ [n])) cs (Some (t, m, [], [], [])))
+    destruct (fold_left (child_step f tc use_memo src ai is_ev (anc ++ [n])) cs (Some (t, m, [], [], [])))
       as [[[[[t1 m1] ks] ccb] ccn]|] eqn:FL; [|discriminate].
     destruct (t_add_compound true t1 ks) as [[t2 nk]|] eqn:TC; [|discriminate].
     inversion H; subst. clear H. simpl.
@@ -421,7 +422,7 @@ Proof.
     apply (finish t2 c anc nk ccb CN AO K). rewrite KN. exact PP.
   - (* disjunction *)
     simpl in H.
-    destruct (fold_left (child_step f use_memo src ai is_ev (anc ++ [n])) cs (Some (t, m, [], [], [])))
+    destruct (fold_left (child_step f tc use_memo src ai is_ev (anc ++ [n])) cs (Some (t, m, [], [], [])))
       as [[[[[t1 m1] ks] ccb] ccn]|] eqn:FL; [|discriminate].
     destruct (t_add_compound false t1 ks) as [[t2 nk]|] eqn:TC; [|discriminate].
     inversion H; subst. clear H. simpl.
@@ -451,7 +452,7 @@ Qed.
 (* at top level (no ancestors) the bounds meet: the key has the model value of the literal *)
 Corollary bc_top_value : forall fuel t m c r,
     topo (t_nodes t) -> memo_ok t m ->
-    bc fuel use_memo src ai is_ev t m c [] = Some r ->
+    bc fuel tc use_memo src ai is_ev t m c [] = Some r ->
     ext t (r_tgt r) /\ topo (t_nodes (r_tgt r)) /\ memo_ok (r_tgt r) (r_memo r) /\ key_valid (r_tgt r) (r_key r) /\
     V (r_tgt r) (r_key r) = lit_val s c.
 Proof.
@@ -476,6 +477,7 @@ Hypothesis M : is_model src a s.
 Hypothesis ST : forall k nd c, node_at src k = Some nd -> In c (children nd) ->
                                ((0 < c)%Z -> lvl (key_of c) <= lvl k) /\ ((c < 0)%Z -> lvl (key_of c) < lvl k).
 Variable ai : atom_info.
+Variable tc : bool.
 Variable use_memo : bool.
 
 Definition key_ok (t : tgt) (n k : key) : Prop := key_valid t k /\ val a t k = key_val s n.
@@ -487,15 +489,15 @@ Qed.
 
 Lemma bc_top_ok : forall is_ev t m ks n t' m' ks',
     topo (t_nodes t) -> memo_ok src a s t m ->
-    bc_top use_memo src ai is_ev (Some (t, m, ks)) n = Some (t', m', ks') ->
+    bc_top tc use_memo src ai is_ev (Some (t, m, ks)) n = Some (t', m', ks') ->
     ext t t' /\ topo (t_nodes t') /\ memo_ok src a s t' m' /\ exists k, ks' = ks ++ [k] /\ key_ok t' n k.
 Proof.
   intros is_ev t m ks n t' m' ks' T MO H. unfold bc_top in H.
   destruct n as [c|].
   - destruct (is_prob (Some c)) eqn:P.
-    + destruct (bc (S (S (length src))) use_memo src ai is_ev t m (if is_ev then Z.abs c else c) []) as [r|] eqn:B; [|discriminate].
+    + destruct (bc (S (S (length src))) tc use_memo src ai is_ev t m (if is_ev then Z.abs c else c) []) as [r|] eqn:B; [|discriminate].
       inversion H; subst. clear H.
-      destruct (bc_top_value src a s lvl M ST ai use_memo is_ev _ t m _ r T MO B) as [E [T' [MO' [K V]]]].
+      destruct (bc_top_value src a s lvl M ST ai tc use_memo is_ev _ t m _ r T MO B) as [E [T' [MO' [K V]]]].
       split; auto. split; auto. split; auto.
       eexists. split. reflexivity.
       destruct is_ev; simpl.
@@ -511,19 +513,19 @@ Proof.
     eexists. split. reflexivity. split. exact I. reflexivity.
 Qed.
 
-Lemma bc_top_none : forall is_ev ns, fold_left (bc_top use_memo src ai is_ev) ns None = None.
+Lemma bc_top_none : forall is_ev ns, fold_left (bc_top tc use_memo src ai is_ev) ns None = None.
 Proof. induction ns; simpl; auto. Qed.
 
 Lemma bc_top_fold : forall is_ev ns t m ks t' m' ks',
     topo (t_nodes t) -> memo_ok src a s t m ->
-    fold_left (bc_top use_memo src ai is_ev) ns (Some (t, m, ks)) = Some (t', m', ks') ->
+    fold_left (bc_top tc use_memo src ai is_ev) ns (Some (t, m, ks)) = Some (t', m', ks') ->
     ext t t' /\ topo (t_nodes t') /\ exists ks'', ks' = ks ++ ks'' /\ Forall2 (key_ok t') ns ks''.
 Proof.
   intros is_ev. induction ns as [|n ns IH]; intros t m ks t' m' ks' T MO H.
   - change (Some (t, m, ks) = Some (t', m', ks')) in H.
     inversion H; subst. split. apply ext_refl. split; auto. exists []. split. now rewrite app_nil_r. constructor.
-  - change (fold_left (bc_top use_memo src ai is_ev) ns (bc_top use_memo src ai is_ev (Some (t, m, ks)) n) = Some (t', m', ks')) in H.
-    destruct (bc_top use_memo src ai is_ev (Some (t, m, ks)) n) as [[[t1 m1] ks1]|] eqn:B.
+  - change (fold_left (bc_top tc use_memo src ai is_ev) ns (bc_top tc use_memo src ai is_ev (Some (t, m, ks)) n) = Some (t', m', ks')) in H.
+    destruct (bc_top tc use_memo src ai is_ev (Some (t, m, ks)) n) as [[[t1 m1] ks1]|] eqn:B.
     2: { rewrite bc_top_none in H. discriminate. }
     destruct (bc_top_ok is_ev t m ks n t1 m1 ks1 T MO B) as [E [T1 [MO1 [k [EQ KO]]]]].
     destruct (IH t1 m1 ks1 t' m' ks' T1 MO1 H) as [E' [T' [ks'' [EQ' F]]]].
@@ -539,21 +541,21 @@ Proof. intros src a s t n es e G. discriminate. Qed.
 
 (* THE theorem for the faithful model (memo included): every query / evidence key of the
    acyclic program has the value the model of the cyclic program gives the source key *)
-Theorem break_cycles_correct : forall use_memo src ai labeled evidence D ks1 ks2 a s,
+Theorem break_cycles_correct : forall tc use_memo src ai labeled evidence D ks1 ks2 a s,
     is_model src a s -> stratified src ->
-    break_cycles_m use_memo src ai labeled evidence = Some (D, ks1, ks2) ->
+    break_cycles_m tc use_memo src ai labeled evidence = Some (D, ks1, ks2) ->
     topo D /\
     Forall2 (fun n k => key_val (vget (dag_val a D)) k = key_val s n) labeled ks1 /\
     Forall2 (fun n k => key_val (vget (dag_val a D)) k = key_val s n) evidence ks2.
 Proof.
-  intros use_memo src ai labeled evidence D ks1 ks2 a s M [lvl ST] H. unfold break_cycles_m in H.
-  destruct (fold_left (bc_top use_memo src ai false) labeled (Some (tgt_empty, [], []))) as [[[t1 m1] k1]|] eqn:F1; [|discriminate].
-  destruct (fold_left (bc_top use_memo src ai true) evidence (Some (t1, [], []))) as [[[t2 m2] k2]|] eqn:F2; [|discriminate].
+  intros tc use_memo src ai labeled evidence D ks1 ks2 a s M [lvl ST] H. unfold break_cycles_m in H.
+  destruct (fold_left (bc_top tc use_memo src ai false) labeled (Some (tgt_empty, [], []))) as [[[t1 m1] k1]|] eqn:F1; [|discriminate].
+  destruct (fold_left (bc_top tc use_memo src ai true) evidence (Some (t1, [], []))) as [[[t2 m2] k2]|] eqn:F2; [|discriminate].
   inversion H; subst. clear H.
   assert (T0 : topo (t_nodes tgt_empty)). { intros k nd c E. destruct k; simpl in E; try discriminate. destruct k; discriminate. }
-  destruct (bc_top_fold src a s lvl M ST ai use_memo false labeled tgt_empty [] [] t1 m1 ks1 T0 (memo_ok_nil _ _ _ _) F1)
+  destruct (bc_top_fold src a s lvl M ST ai tc use_memo false labeled tgt_empty [] [] t1 m1 ks1 T0 (memo_ok_nil _ _ _ _) F1)
     as [E1 [T1 [ks' [EQ1 FA1]]]]. simpl in EQ1. subst ks'.
-  destruct (bc_top_fold src a s lvl M ST ai use_memo true evidence t1 [] [] t2 m2 ks2 T1 (memo_ok_nil _ _ _ _) F2)
+  destruct (bc_top_fold src a s lvl M ST ai tc use_memo true evidence t1 [] [] t2 m2 ks2 T1 (memo_ok_nil _ _ _ _) F2)
     as [E2 [T2 [ks' [EQ2 FA2]]]]. simpl in EQ2. subst ks'.
   split; auto. split.
   - eapply Forall2_impl; [|exact FA1]. intros n k KO. apply (key_ok_ext a s t1 t2 n k E2) in KO. destruct KO as [_ V]. exact V.
@@ -561,9 +563,9 @@ Proof.
 Qed.
 
 (* the design's C09_break_cycles_nomemo is the instance use_memo = false *)
-Corollary break_cycles_nomemo_correct : forall src ai labeled evidence D ks1 ks2 a s,
+Corollary break_cycles_nomemo_correct : forall tc src ai labeled evidence D ks1 ks2 a s,
     is_model src a s -> stratified src ->
-    break_cycles_m false src ai labeled evidence = Some (D, ks1, ks2) ->
+    break_cycles_m tc false src ai labeled evidence = Some (D, ks1, ks2) ->
     topo D /\
     Forall2 (fun n k => key_val (vget (dag_val a D)) k = key_val s n) labeled ks1 /\
     Forall2 (fun n k => key_val (vget (dag_val a D)) k = key_val s n) evidence ks2.
